@@ -140,3 +140,64 @@ Proof.
     cbn in Hp. apply andb_true_iff in Hp as [Hp1 Hp2]. rewrite Hp1, IH by assumption. reflexivity. }
   rewrite E. destruct ps; [congruence|reflexivity].
 Qed.
+
+(* ---- the subject of -name ---- *)
+Lemma last_seg_acc : forall n cur, ~ In SL n -> last_seg n cur = cur ++ n.
+Proof.
+  induction n as [|c n IH]; intros cur H; cbn [last_seg]; [now rewrite app_nil_r|].
+  destruct (Nat.eqb_spec c SL) as [->|_]; [exfalso; apply H; now left|].
+  rewrite IH by (intros H'; apply H; now right). now rewrite <- app_assoc.
+Qed.
+Lemma last_seg_app : forall a cur n, last_seg (a ++ SL :: n) cur = last_seg n [].
+Proof.
+  induction a as [|c a IH]; intros cur n; cbn [app last_seg]; [now rewrite Nat.eqb_refl|].
+  destruct (c =? SL); apply IH.
+Qed.
+
+Lemma trim_sl_rev_plain r c : (c =? SL) = false -> trim_sl_rev (c :: r) = c :: r.
+Proof. intros H. cbn. now rewrite H. Qed.
+
+Lemma trim_end_plain s : ends_with_sl s = false -> trim_end_sl s = s.
+Proof.
+  unfold ends_with_sl, trim_end_sl. destruct (rev s) as [|c r] eqn:E; intros H.
+  - cbn. rewrite <- (rev_involutive s), E. reflexivity.
+  - rewrite trim_sl_rev_plain by exact H. rewrite <- (rev_involutive s). now rewrite E.
+Qed.
+
+Lemma name_subject_plain_end p : p <> [] -> ends_with_sl p = false -> name_subject p = last_seg p [].
+Proof. intros Hp He. unfold name_subject. rewrite trim_end_plain by exact He. destruct p; [congruence|reflexivity]. Qed.
+
+(* below a starting point the subject is the entry's own name, whatever the spelling of what precedes it *)
+Theorem name_subject_below base n : plainname n -> name_subject (base ++ SL :: n) = n.
+Proof.
+  intros Hn. pose proof (plain_no_trailing_sl n Hn) as He. destruct Hn as [Hne Hs].
+  destruct n as [|c n]; [congruence|].
+  assert (Hend : ends_with_sl (base ++ SL :: c :: n) = false).
+  { replace (base ++ SL :: c :: n) with ((base ++ [SL]) ++ c :: n) by now rewrite <- app_assoc.
+    now rewrite ends_with_sl_app. }
+  rewrite name_subject_plain_end; [|destruct base; discriminate|exact Hend].
+  rewrite last_seg_app. now rewrite last_seg_acc.
+Qed.
+
+(* trailing slashes are ignored *)
+Lemma trim_end_sl_snoc s : trim_end_sl (s ++ [SL]) = trim_end_sl s.
+Proof. unfold trim_end_sl. rewrite rev_app_distr. cbn. reflexivity. Qed.
+Theorem name_subject_trailing_slash s : trim_end_sl s <> [] -> name_subject (s ++ [SL]) = name_subject s.
+Proof.
+  intros H. unfold name_subject. rewrite trim_end_sl_snoc.
+  destruct (trim_end_sl s) eqn:E; [congruence|]. destruct (s ++ [SL]), s; reflexivity.
+Qed.
+
+(* the subject never contains a slash, except that it is "/" for a path made of slashes only *)
+Lemma last_seg_no_sl : forall s cur, ~ In SL cur -> ~ In SL (last_seg s cur).
+Proof.
+  induction s as [|c s IH]; intros cur H; cbn [last_seg]; [exact H|].
+  destruct (Nat.eqb_spec c SL) as [->|Hc]; [apply IH; intros []|].
+  apply IH. intros Hin. apply in_app_or in Hin as [Hin|[->|[]]]; [now apply H|congruence].
+Qed.
+Theorem name_subject_no_slash p : name_subject p = [SL] \/ ~ In SL (name_subject p).
+Proof.
+  unfold name_subject. destruct (trim_end_sl p) eqn:E.
+  - destruct p; [right; intros []|now left].
+  - right. apply last_seg_no_sl. intros [].
+Qed.
